@@ -93,6 +93,8 @@ impl Selector {
         let n = epoll.wait(events, timeout_ms)?;
         // println!("epoll_wait = {}", n);
 
+        #[cfg(may_verif)]
+        may_queue::verif::point(may_queue::verif::site::EP_AFTER_WAIT, id);
         // collect coroutines
         for event in &events[..n] {
             if event.data() == 0 {
@@ -109,12 +111,16 @@ impl Selector {
             // info!("select got event, data={:p}, events={}", data, events);
             data.io_flag.fetch_or(events, Ordering::Release);
 
+            #[cfg(may_verif)]
+            may_queue::verif::point(may_queue::verif::site::EP_EVENT_FLAGGED, id);
             // first check the atomic co, this may be grab by the worker first
             let co = match data.co.take() {
                 Some(co) => co,
                 None => continue,
             };
 
+            #[cfg(may_verif)]
+            may_queue::verif::point(may_queue::verif::site::EP_EVENT_TOOK, id);
             // it's safe to remove the timer since we are running the timer_list in the same thread
             #[cfg(feature = "io_timeout")]
             data.timer.borrow_mut().take().map(|h| {
@@ -138,6 +144,8 @@ impl Selector {
         // free the unused event_data
         self.free_unused_event_data(id);
 
+        #[cfg(may_verif)]
+        may_queue::verif::point(may_queue::verif::site::EP_BEFORE_TIMERS, id);
         // deal with the timer list
         #[cfg(feature = "io_timeout")]
         let next_expire = single_selector
@@ -241,6 +249,8 @@ impl Selector {
         let id = io.fd as usize % self.vec.len();
         // info!("io timeout = {:?}", dur);
         let (h, b_new) = self.vec[id].timer_list.add_timer(timeout, io.timer_data());
+        #[cfg(may_verif)]
+        may_queue::verif::point(may_queue::verif::site::EP_ADD_TIMER_PUSHED, id);
         if b_new {
             // wake up the event loop thread to recall the next wait timeout
             self.wakeup(id);
